@@ -471,6 +471,11 @@ PROPERTIES["C10"] = {
         M("c10_req_state_under_detach", "d_c10", "req_pipe_detached",
           "ReqSocket::pipe_detached executed from MIR on a hand-assembled ReqSocket (two peers A, B; state ReadyToSend or ExpectingReply{A}); detached pipe in {A, B, unknown}; SocketCore, ingress engine and Notify are stubbed",
           budget={"quick": 100, "thorough": 100}, required_covers=["c10.req-detach.unrelated", "c10.req-detach.holder-left"]),
+        M("c10_req_call_histories", "d_c10", "req_history",
+          {"quick": "ReqSocket::{send, recv} (coroutine MIR; recv contains a biased tokio::select! over the reply notifier and the ingress engine, executed from the macro expansion) on a hand-assembled socket with one peer, the real AddressedIngressEngine and RCVTIMEO = 0: all histories of 4 operations from {send, recv, a reply arrives}",
+           "thorough": "histories of 5 operations"},
+          params={"quick": {"ops": 4}, "thorough": {"ops": 5}}, budget={"quick": 300, "thorough": 1200},
+          required_covers=["c10.req-history.request-reply-cycle"]),
     ],
     "cfabmc": [
         dict(name="c10_req_concurrent_send", module="verifkit.cfabmc.req_check",
@@ -486,9 +491,9 @@ PROPERTIES["C10"] = {
     "manifest": {
         "engine": "mirsym+cfabmc",
         "technique": "interleaving BMC (z3, symbolic scheduler) over the CFAs of ReqSocket::send and RepSocket::recv extracted by executing their MIR, with the state mutex, state reads/writes and the awaited peer send as visible operations; plus execution of ReqSocket::pipe_detached's MIR over all bounded state x event combinations",
-        "text": "Two kernels of the property. (1) Racing senders: for 2 (thorough: 3) tasks calling send() concurrently on one REQ socket in state ReadyToSend, under every interleaving of their lock/unlock, state read/write and awaited peer-send steps and every outcome of the peer send: at most one call returns Ok; when all calls have returned the state is ExpectingReply exactly if one succeeded and ReadyToSend otherwise (a refused or failed send never leaves the socket unusable); the state mutex is released. (2) A peer-detach event changes the request state only when the detached peer holds the outstanding request (then the socket returns to ReadyToSend). (3) Racing receivers on REP: for 2 (thorough: 3) tasks calling recv() concurrently in state ReadyToReceive, under every interleaving and every outcome of the awaited request, at most one call returns Ok (no request's PeerInfo is overwritten by a second one), mutexes released.",
+        "text": "Two kernels of the property. (1) Racing senders: for 2 (thorough: 3) tasks calling send() concurrently on one REQ socket in state ReadyToSend, under every interleaving of their lock/unlock, state read/write and awaited peer-send steps and every outcome of the peer send: at most one call returns Ok; when all calls have returned the state is ExpectingReply exactly if one succeeded and ReadyToSend otherwise (a refused or failed send never leaves the socket unusable); the state mutex is released. (2) A peer-detach event changes the request state only when the detached peer holds the outstanding request (then the socket returns to ReadyToSend). (4) Single-caller histories on REQ through the real send()/recv(): successful operations alternate send, recv, send ...; a call in the wrong state is refused with InvalidState and changes nothing; a recv that fails for lack of a reply (would-block / timeout) leaves the socket expecting that reply; recv returns the oldest queued reply. (3) Racing receivers on REP: for 2 (thorough: 3) tasks calling recv() concurrently in state ReadyToReceive, under every interleaving and every outcome of the awaited request, at most one call returns Ok (no request's PeerInfo is overwritten by a second one), mutexes released.",
         "design_ref": "DESIGN.md §5 (C10)",
-        "note": "NOT claimed: recv() racing with send()/recv() (tokio::select! over the ingress engine and Notify), alternation over longer call histories, REP, reply routing, cancellation of the send future at its await (the guard's drop on the cancellation edge is not in the MIR dump).",
+        "note": "NOT claimed: recv() racing with send()/recv() from several tasks, REP call histories and reply routing, cancellation of the send future at its await (the guard's drop on the cancellation edge is not in the MIR dump).",
     },
     "outside": "recv races, longer histories, REP socket, reply routing, cancellation",
 }
@@ -524,6 +529,9 @@ PROPERTIES["C09"] = {
         M("c09_rpq_pop_cancelled", "d_c09", "rpq_pop_cancel",
           "ReadyPipeQueue::pop (coroutine MIR) on an empty queue: polled until Pending on the ready list, then its drop shim is executed before / after a producer enqueued an item; control run resumes",
           budget={"quick": 200, "thorough": 300}, required_covers=["c09.rpq-pop.cancelled-before-enqueue", "c09.rpq-pop.cancelled-after-enqueue", "c09.rpq-pop.control-completed"]),
+        M("c09_rpq_pop_dropped_at_every_await", "d_c09", "rpq_pop_cancel_every_point",
+          "ReadyPipeQueue::pop with 0, 1 or `capacity` items queued (capacity 1 or 2): up to three polls, the future may be dropped after ANY poll that returned Pending (tokio's yield_now and the channel futures are modelled), an item may be enqueued while it is parked; afterwards the queue is drained",
+          budget={"quick": 200, "thorough": 300}, required_covers=["c09.rpq-pop-points.dropped-while-parked", "c09.rpq-pop-points.completed"]),
         M("c09_ingress_recv_cancelled", "d_c09", "ingress_recv_cancel",
           "AnonymousIngressEngine::{recv, recv_multipart} without timeout (PULL/SUB receive path): parked inside the nested ReadyPipeQueue::pop coroutine, outer drop shim executed (it runs the inner coroutine's shim) before / after a 2-frame message was enqueued; then everything is read back frame by frame",
           budget={"quick": 200, "thorough": 300}, required_covers=["c09.ingress.cancelled-before-enqueue", "c09.ingress.cancelled-after-enqueue", "c09.ingress.control-completed"]),
